@@ -3,7 +3,7 @@
 From Coq Require Import ZArith List Bool Lia.
 From Coq.Strings Require Import Byte.
 From Opcua Require Import Model.Layout Model.ChunkBytes Model.ChunkModel Proofs.LayoutProofs
-  Proofs.ChunkBytesProofs Proofs.ChunkProofs Gen.ArithFromGo.
+  Proofs.ChunkBytesProofs Proofs.ChunkProofs Gen.ArithFromGo Gen.ChunkPreds.
 Import ListNotations.
 Open Scope Z_scope.
 
@@ -30,12 +30,13 @@ Qed.
 (* the receiver's sequence check accepts the sender's next number (increase, or the roll-over) *)
 Lemma next_accepted s : 0 <= s < 4294967296 -> seq_accept (Some s) (go_nextSequenceNumber s) = true.
 Proof.
-  intros H. unfold seq_accept, go_nextSequenceNumber. cbv zeta.
+  intros H. unfold seq_accept, go_seqReject, go_nextSequenceNumber. cbv zeta.
   destruct (Z.eq_dec s 4294967295) as [->|Hne]; [vm_compute; reflexivity|].
   rewrite (Z.mod_small (s + 1)) by lia.
+  apply negb_true_iff. apply andb_false_iff.
   destruct (Z.gtb_spec (s + 1) (4294967295 - 1023)).
-  - apply orb_true_iff. right. apply andb_true_iff. split; [apply Z.leb_le; lia | reflexivity].
-  - apply orb_true_iff. left. apply Z.ltb_lt. lia.
+  - right. apply negb_false_iff. apply andb_true_iff. split; [rewrite Z.geb_leb; apply Z.leb_le; lia | reflexivity].
+  - left. apply Z.leb_gt. lia.
 Qed.
 
 (* ---------------------------------------------------------------------------------------------- *)
@@ -330,13 +331,14 @@ Qed.
 (* ---------------------------------------------------------------------------------------------- *)
 (* receive side *)
 
-Lemma merge_loop_chain prev (chs : list chunk) :
-  chain_ok prev (map c_seq chs) -> merge_loop false prev chs = concat (map c_data chs).
+Lemma merge_loop_chain (chs : list chunk) : forall i prev,
+  chain_ok prev (map c_seq chs) -> merge_loop i prev chs = concat (map c_data chs).
 Proof.
-  revert prev. induction chs as [|c rest IH]; intros prev Hc; [reflexivity|].
-  cbn [map chain_ok] in Hc. destruct Hc as [Hne Hrest]. cbn [merge_loop map concat negb andb].
-  replace (c_seq c =? prev) with false by (symmetry; apply Z.eqb_neq; exact Hne).
-  rewrite IH by exact Hrest. reflexivity.
+  induction chs as [|c rest IH]; intros i prev Hc; [reflexivity|].
+  cbn [map chain_ok] in Hc. destruct Hc as [Hne Hrest]. cbn [merge_loop map concat].
+  assert (Hd : go_mergeDuplicate i (c_seq c) prev = false).
+  { unfold go_mergeDuplicate. apply andb_false_iff. right. apply Z.eqb_neq. exact Hne. }
+  rewrite Hd, IH by exact Hrest. reflexivity.
 Qed.
 
 (* adjacent sequence numbers differ *)
@@ -350,8 +352,11 @@ Proof.
   - reflexivity.
   - cbn. rewrite app_nil_r. reflexivity.
   - unfold merge_chunks.
-    change (merge_loop true 0 (c :: c2 :: rest)) with (c_data c ++ merge_loop false (c_seq c) (c2 :: rest)).
-    rewrite (merge_loop_chain (c_seq c) (c2 :: rest)) by exact Hc. reflexivity.
+    assert (H0 : forall n, go_mergeDuplicate 0 n 0 = false) by (intros n; reflexivity).
+    change (merge_loop 0 0 (c :: c2 :: rest))
+      with (if go_mergeDuplicate 0 (c_seq c) 0 then merge_loop (0 + 1) 0 (c2 :: rest)
+            else c_data c ++ merge_loop (0 + 1) (c_seq c) (c2 :: rest)).
+    rewrite H0. rewrite (merge_loop_chain (c2 :: rest) (0 + 1) (c_seq c)) by exact Hc. reflexivity.
 Qed.
 
 Lemma tbl_get_del t k : tbl_get (tbl_del t k) k = [].
